@@ -64,6 +64,9 @@ class BSplineBasis:
         for i in range(len(knots) - 1):
             if knots[i + 1] - knots[i] < -state.knot_tolerance:
                 raise ValueError('knot vector needs to be non-decreasing')
+        # decreases within the tolerance are accepted: take them out (running maximum, a no-op for a sorted
+        # vector), the evaluation kernel relies on an exactly non-decreasing knot vector
+        self.knots = np.maximum.accumulate(self.knots)
 
     def num_functions(self):
         """  Returns the number of basis functions in the basis.
@@ -474,6 +477,8 @@ class BSplineBasis:
         len_left = left.stop - left.start
         right = slice(0, n-len_left, None)
         (self.knots[:len_left], self.knots[len_left:]) = (self.knots[left], self.knots[right] - t1)
+        # the shifted copy can start one rounding error below the knot it continues
+        np.maximum.accumulate(self.knots, out=self.knots)
 
     def matches(self, bspline, reverse=False):
         """ Checks if this basis equals another basis, when disregarding
